@@ -71,36 +71,38 @@ Proof. revert bm idx. induction n as [|n IH]; intros bm idx; [reflexivity|]. cbn
 
 (* success comes from one field attempt on the unchanged bitmap (failed attempts change nothing) *)
 Lemma gloop_some F n bm fields idx x bm' :
-  0 < fields -> (forall b i b', F b i = (None, b') -> b' = b) ->
+  0 < fields -> (forall i b', i < fields -> F bm i = (None, b') -> b' = bm) ->
   gloop F n bm fields idx = (Some x, bm') -> exists i, i < fields /\ F bm i = (Some x, bm').
 Proof.
-  intros Hf HF. revert bm idx. induction n as [|n IH]; intros bm idx H; cbn [gloop] in H; [discriminate|].
+  intros Hf HF. revert idx. induction n as [|n IH]; intros idx H; cbn [gloop] in H; [discriminate|].
   set (i := if fields <=? idx then 0 else idx) in *.
+  assert (Hi : i < fields) by (subst i; destruct (fields <=? idx) eqn:E2; lia).
   destruct (F bm i) as [[r|] bm1] eqn:E.
-  - inversion H; subst. exists i. split; [subst i; destruct (fields <=? idx) eqn:E2; lia|exact E].
-  - apply HF in E. subst bm1. apply IH in H. exact H.
+  - inversion H; subst. exists i. split; [exact Hi|exact E].
+  - apply HF in E; [|exact Hi]. subst bm1. apply IH in H. exact H.
 Qed.
 (* failure: every field has been tried on the unchanged bitmap *)
 Lemma gloop_none F n bm fields idx bm' :
-  0 < fields -> N.of_nat n <= fields -> (forall b i b', F b i = (None, b') -> b' = b) ->
+  0 < fields -> N.of_nat n <= fields -> (forall i b', i < fields -> F bm i = (None, b') -> b' = bm) ->
   gloop F n bm fields idx = (None, bm') ->
   bm' = bm /\
   forall i, i < fields ->
     let idx' := if fields <=? idx then 0 else idx in
     (idx' <= i /\ i < idx' + N.of_nat n) \/ i + fields < idx' + N.of_nat n -> fst (F bm i) = None.
 Proof.
-  intros Hf Hn HF. revert bm idx Hn. induction n as [|n IH]; intros bm idx Hn H; cbn [gloop] in H.
+  intros Hf Hn HF. revert idx Hn. induction n as [|n IH]; intros idx Hn H; cbn [gloop] in H.
   - inversion H. split; [reflexivity|]. intros i Hi idx' Hc. subst idx'. destruct (fields <=? idx) eqn:E2; lia.
   - set (i0 := if fields <=? idx then 0 else idx) in *.
+    assert (Hi0 : i0 < fields) by (subst i0; destruct (fields <=? idx) eqn:E2; lia).
     destruct (F bm i0) as [[r|] bm1] eqn:E; [discriminate|].
-    pose proof (HF _ _ _ E). subst bm1. apply IH in H; [|lia]. destruct H as [-> H]. split; [reflexivity|].
+    pose proof (HF _ _ Hi0 E). subst bm1. apply IH in H; [|lia]. destruct H as [-> H]. split; [reflexivity|].
     intros i Hi idx' Hc. subst idx'. fold i0 in Hc.
     destruct (N.eq_dec i i0) as [->|Hne]; [rewrite E; reflexivity|].
-    apply H; [exact Hi|]. cbv zeta. assert (i0 < fields) by (subst i0; destruct (fields <=? idx) eqn:E2; lia).
+    apply H; [exact Hi|]. cbv zeta.
     destruct (fields <=? i0 + 1) eqn:E3; lia.
 Qed.
 Lemma gloop_none_all F bm fields idx bm' :
-  0 < fields -> (forall b i b', F b i = (None, b') -> b' = b) ->
+  0 < fields -> (forall i b', i < fields -> F bm i = (None, b') -> b' = bm) ->
   gloop F (N.to_nat fields) bm fields idx = (None, bm') ->
   bm' = bm /\ forall i, i < fields -> fst (F bm i) = None.
 Proof.
@@ -113,3 +115,386 @@ Proof. reflexivity. Qed.
 
 Lemma field_none_same count bm i bm' : 1 <= count -> count <= 64 -> try_find_claim_field bm i count = (None, bm') -> bm' = bm.
 Proof. intros H1 H2 H. apply (try_find_claim_field_spec _ _ _ _ _ H1 H2 H). Qed.
+
+(* ---- mi_bitmap_try_find_claim_field_across ---- *)
+
+Lemma lor_land_wnot v m : v < W64 -> m < W64 -> N.land v m = 0 -> N.land (N.lor v m) (wnot m) = v.
+Proof.
+  intros Hv Hm Hz. apply eq_of_bits64; [apply land_lt, lor_lt; assumption|exact Hv|]. intros b Hb.
+  rewrite N.land_spec, N.lor_spec, wnot_testbit by exact Hm. pose proof (land_zero_bit _ _ b Hz).
+  destruct (N.testbit v b), (N.testbit m b); cbn in *; try reflexivity; try discriminate; lia.
+Qed.
+
+Lemma claim_mid_spec n bm j r bm' :
+  bm_ok bm -> j + N.of_nat n <= nfields bm -> claim_mid n bm j = (r, bm') ->
+  let k := match r with None => j + N.of_nat n | Some f => f end in
+  length bm' = length bm /\ bm_ok bm' /\ j <= k /\ k <= j + N.of_nat n /\
+  (match r with Some f => f < j + N.of_nat n | None => True end) /\
+  (forall i, j <= i -> i < k -> getf bm i = 0) /\
+  (forall i, getf bm' i = if (j <=? i) && (i <? k) then FULL else getf bm i).
+Proof.
+  revert bm j. induction n as [|n IH]; intros bm j Hok Hn H; cbn [claim_mid] in H.
+  - inversion H; subst. cbv zeta. repeat split; try assumption; try lia. intros i. destruct ((j <=? i) && (i <? j + N.of_nat 0)) eqn:E; [lia|reflexivity].
+  - destruct (getf bm j =? 0) eqn:E0.
+    + apply IH in H; [|apply setf_ok; [exact Hok|apply FULL_lt]|rewrite nfields_setf; lia].
+      cbv zeta in *. destruct H as (L & O & K1 & K2 & K3 & Z & G). rewrite length_setf in L.
+      set (k := match r with None => j + 1 + N.of_nat n | Some f => f end) in *.
+      assert (Ek : match r with None => j + N.of_nat (S n) | Some f => f end = k) by (subst k; destruct r; lia).
+      rewrite Ek. repeat split; try assumption; try lia.
+      * destruct r; lia.
+      * intros i H1 H2. destruct (N.eq_dec i j) as [->|Hne]; [lia|].
+        rewrite <- (Z i) by lia. rewrite getf_setf_other by lia. reflexivity.
+      * intros i. rewrite G. destruct (N.eq_dec i j) as [->|Hne].
+        -- rewrite getf_setf_same by lia. destruct ((j + 1 <=? j) && (j <? k)) eqn:E1, ((j <=? j) && (j <? k)) eqn:E2; try reflexivity; lia.
+        -- rewrite getf_setf_other by lia. destruct ((j + 1 <=? i) && (i <? k)) eqn:E1, ((j <=? i) && (i <? k)) eqn:E2; try reflexivity; lia.
+    + inversion H; subst. cbv zeta. repeat split; try assumption; try lia. intros i.
+      destruct ((j <=? i) && (i <? j)) eqn:E; [lia|reflexivity].
+Qed.
+
+Lemma rollback_mid_spec n bm j :
+  bm_ok bm -> N.of_nat n <= j + 1 -> j < nfields bm ->
+  length (rollback_mid n bm j) = length bm /\ bm_ok (rollback_mid n bm j) /\
+  forall i, getf (rollback_mid n bm j) i = if (j + 1 - N.of_nat n <=? i) && (i <=? j) then 0 else getf bm i.
+Proof.
+  revert bm j. induction n as [|n IH]; intros bm j Hok Hn Hj; cbn [rollback_mid].
+  - repeat split; try assumption. intros i. destruct ((j + 1 - N.of_nat 0 <=? i) && (i <=? j)) eqn:E; [lia|reflexivity].
+  - destruct (IH (setf bm j 0) (j - 1)) as (L & O & G); [apply setf_ok; [exact Hok|reflexivity]|lia|rewrite nfields_setf; lia|].
+    rewrite length_setf in L. repeat split; try assumption. intros i. rewrite G.
+    destruct (N.eq_dec i j) as [->|Hne].
+    + rewrite getf_setf_same by exact Hj.
+      destruct ((j - 1 + 1 - N.of_nat n <=? j) && (j <=? j - 1)) eqn:E1, ((j + 1 - N.of_nat (S n) <=? j) && (j <=? j)) eqn:E2; try reflexivity; lia.
+    + rewrite getf_setf_other by lia.
+      destruct ((j - 1 + 1 - N.of_nat n <=? i) && (i <=? j - 1)) eqn:E1, ((j + 1 - N.of_nat (S n) <=? i) && (i <=? j)) eqn:E2; try reflexivity; lia.
+Qed.
+
+(* the rollback restores the bitmap exactly *)
+Lemma rollback_restores bm bm2 idx f v imask :
+  bm_ok bm -> bm_ok bm2 -> length bm2 = length bm -> idx < f -> f <= nfields bm -> imask < W64 ->
+  v = getf bm idx -> N.land v imask = 0 ->
+  (forall i, idx + 1 <= i -> i < f -> getf bm i = 0) ->
+  (forall i, getf bm2 i = if i =? idx then N.lor v imask else if (idx + 1 <=? i) && (i <? f) then FULL else getf bm i) ->
+  rollback bm2 idx f imask = bm.
+Proof.
+  intros Hok Hok2 Hl Hif Hf Hm Hv Hz Z G. unfold rollback.
+  assert (E : (f =? idx) = false) by lia. rewrite E.
+  assert (Hnf : nfields bm2 = nfields bm) by (unfold nfields; rewrite Hl; reflexivity).
+  destruct (rollback_mid_spec (N.to_nat (f - 1 - idx)) bm2 (f - 1)) as (L3 & O3 & G3); [exact Hok2|lia|lia|].
+  set (bm3 := rollback_mid (N.to_nat (f - 1 - idx)) bm2 (f - 1)) in *.
+  apply bm_ext; [rewrite length_setf; congruence|]. intros i Hi.
+  rewrite nfields_setf in Hi.
+  assert (Hnf3 : nfields bm3 = nfields bm) by (unfold nfields; rewrite L3, Hl; reflexivity).
+  rewrite getf_setf by lia.
+  assert (G3' : forall i, getf bm3 i = if (idx + 1 <=? i) && (i <? f) then 0 else getf bm2 i).
+  { intros k. rewrite G3. destruct ((f - 1 + 1 - N.of_nat (N.to_nat (f - 1 - idx)) <=? k) && (k <=? f - 1)) eqn:E1,
+      ((idx + 1 <=? k) && (k <? f)) eqn:E2; try reflexivity; lia. }
+  destruct (i =? idx) eqn:Ei.
+  - assert (i = idx) by lia. subst i. rewrite G3'. assert (E1 : (idx + 1 <=? idx) && (idx <? f) = false) by lia. rewrite E1.
+    rewrite G, N.eqb_refl. rewrite lor_land_wnot; try assumption. subst v. apply getf_lt, Hok.
+  - rewrite G3', G, Ei. destruct ((idx + 1 <=? i) && (i <? f)) eqn:E1; [|reflexivity]. symmetry. apply Z; lia.
+Qed.
+
+Lemma claim_range_spec bm idx final initial mb ok bm' :
+  bm_ok bm -> idx < final -> final < nfields bm -> 1 <= initial -> initial <= 64 -> 1 <= mb -> mb <= 64 ->
+  claim_range bm idx final (mask_ initial (64 - initial)) (mask_ mb 0) = (ok, bm') ->
+  if ok then set_range bm bm' (64 * idx + (64 - initial)) (initial + 64 * (final - idx - 1) + mb) else bm' = bm.
+Proof.
+  intros Hok Hif Hf Hi1 Hi2 Hm1 Hm2 H. unfold claim_range in H.
+  set (imask := mask_ initial (64 - initial)) in *. set (fmask := mask_ mb 0) in *.
+  set (v := getf bm idx) in *.
+  destruct (N.land v imask =? 0) eqn:Ez; cbn [negb] in H.
+  2:{ inversion H; subst. unfold rollback. rewrite N.eqb_refl. reflexivity. }
+  assert (Hz : N.land v imask = 0) by lia.
+  assert (Hv : v < W64) by (apply getf_lt, Hok).
+  set (bm1 := setf bm idx (N.lor v imask)) in *.
+  assert (Hok1 : bm_ok bm1) by (apply setf_ok; [exact Hok|apply lor_lt; [exact Hv|apply mask_lt]]).
+  destruct (claim_mid (N.to_nat (final - idx - 1)) bm1 (idx + 1)) as [r bm2] eqn:Em.
+  apply claim_mid_spec in Em; [|exact Hok1|subst bm1; rewrite nfields_setf; lia].
+  cbv zeta in Em. destruct Em as (L2 & O2 & K1 & K2 & K3 & Z2 & G2).
+  subst bm1. rewrite length_setf in L2.
+  assert (G1 : forall i, getf (setf bm idx (N.lor v imask)) i = if i =? idx then N.lor v imask else getf bm i)
+    by (intros i; apply getf_setf; lia).
+  assert (RB : forall f, idx < f -> f <= final ->
+             (forall i, idx + 1 <= i -> i < f -> getf bm i = 0) ->
+             (forall i, getf bm2 i = if (idx + 1 <=? i) && (i <? f) then FULL else getf (setf bm idx (N.lor v imask)) i) ->
+             rollback bm2 idx f imask = bm).
+  { intros f F1 F2 Zf Gf. apply rollback_restores with (v := v); try assumption; try reflexivity; try lia; [apply mask_lt|].
+    intros i. rewrite Gf, G1. destruct (i =? idx) eqn:E1; [|reflexivity].
+    destruct ((idx + 1 <=? i) && (i <? f)) eqn:E2; [lia|reflexivity]. }
+  destruct r as [f|].
+  - (* an intermediate CAS failed *)
+    inversion H; subst. apply RB; try lia; [|exact G2].
+    intros i A1 A2. rewrite <- (Z2 i) by lia. rewrite G1. assert ((i =? idx) = false) by lia. rewrite H0. reflexivity.
+  - replace (idx + 1 + N.of_nat (N.to_nat (final - idx - 1))) with final in * by lia.
+    assert (Zb : forall i, idx + 1 <= i -> i < final -> getf bm i = 0).
+    { intros i A1 A2. rewrite <- (Z2 i) by lia. rewrite G1. assert ((i =? idx) = false) by lia. rewrite H0. reflexivity. }
+    set (v2 := getf bm2 final) in *.
+    assert (Hv2 : v2 = getf bm final).
+    { subst v2. rewrite G2, G1. assert (E1 : (idx + 1 <=? final) && (final <? final) = false) by lia.
+      assert (E2 : (final =? idx) = false) by lia. rewrite E1, E2. reflexivity. }
+    destruct (N.land v2 fmask =? 0) eqn:Ez2; cbn [negb] in H.
+    2:{ inversion H; subst. apply RB; try lia; [exact Zb|exact G2]. }
+    inversion H; subst ok bm'. clear H.
+    assert (Hz2 : N.land v2 fmask = 0) by lia.
+    assert (Hnf2 : nfields bm2 = nfields bm) by (unfold nfields; rewrite L2; reflexivity).
+    split; [rewrite length_setf; exact L2|]. split.
+    + apply setf_ok; [exact O2|]. apply lor_lt; [subst v2; apply getf_lt, O2|apply mask_lt].
+    + intros i b Hi Hb. rewrite getf_setf by lia. unfold in_rng. cbn [fst snd].
+      pose proof (land_zero_bit _ _ b Hz) as Hzb. pose proof (land_zero_bit _ _ b Hz2) as Hzb2.
+      subst imask fmask. rewrite mask_testbit in Hzb, Hzb2 by lia.
+      destruct (i =? final) eqn:E1.
+      * assert (i = final) by lia. subst i. rewrite N.lor_spec, mask_testbit by lia. rewrite <- Hv2. split; [|intros Hin]; lia.
+      * rewrite G2, G1. destruct ((idx + 1 <=? i) && (i <? final)) eqn:E2.
+        -- rewrite (Zb i) by lia. rewrite FULL_testbit, N.bits_0. split; [|intros Hin]; lia.
+        -- destruct (i =? idx) eqn:E3.
+           ++ assert (i = idx) by lia. subst i. rewrite N.lor_spec, mask_testbit by lia. fold v. split; [|intros Hin]; lia.
+           ++ split; [|intros Hin]; lia.
+Qed.
+
+Lemma scan_ahead_spec fuel bm idx initial j found count final fmask :
+  idx < j -> found = initial + 64 * (j - idx - 1) -> found < count ->
+  scan_ahead fuel bm j found count = Some (final, fmask) ->
+  j <= final /\
+  let mb := count - (initial + 64 * (final - idx - 1)) in
+  1 <= mb /\ mb <= 64 /\ initial + 64 * (final - idx - 1) < count /\ fmask = mask_ mb 0.
+Proof.
+  revert j found. induction fuel as [|fuel IH]; intros j found Hj Hf Hc H; cbn [scan_ahead] in H; [discriminate|].
+  set (mask_bits := if found + 64 <=? count then 64 else count - found) in *.
+  destruct (N.land (getf bm j) (mask_ mask_bits 0) =? 0); cbn [negb] in H; [|discriminate].
+  destruct (found + mask_bits <? count) eqn:E.
+  - apply IH in H; try lia.
+    + destruct H as [H1 H2]. split; [lia|exact H2].
+    + subst mask_bits. destruct (found + 64 <=? count) eqn:E2; lia.
+  - inversion H; subst final fmask. split; [lia|]. cbv zeta. subst mask_bits.
+    destruct (found + 64 <=? count) eqn:E2.
+    + assert (count - (initial + 64 * (j - idx - 1)) = 64) by lia. rewrite H0. repeat split; lia.
+    + assert (count - (initial + 64 * (j - idx - 1)) = count - found) by lia. rewrite H0. repeat split; lia.
+Qed.
+
+Lemma across_field_spec tries bm fields idx count retries r bm' :
+  bm_ok bm -> nfields bm = fields -> idx < fields -> 1 <= count -> count + 64 < W64 ->
+  try_find_claim_field_across tries bm fields idx count retries = (r, bm') ->
+  match r with
+  | Some x => 64 * idx <= x /\ x < 64 * idx + 64 /\ x + count <= 64 * fields /\ set_range bm bm' x count
+  | None => bm' = bm
+  end.
+Proof.
+  intros Hok Hnf Hidx H1 HW. revert retries. induction tries as [|tries IH]; intros retries H; cbn [try_find_claim_field_across] in H.
+  all: set (initial := clz (getf bm idx)) in *;
+    (destruct (initial =? 0) eqn:E0; [inversion H; reflexivity|]);
+    (destruct (count <=? initial) eqn:E1;
+     [ pose proof (clz_le64 (getf bm idx)) as Hcl; fold initial in Hcl;
+       pose proof (try_find_claim_field_spec _ _ _ _ _ H1 ltac:(lia) H) as Hs;
+       destruct r as [x|]; [|exact Hs];
+       destruct Hs as (bit & -> & Hb & Hz & ->);
+       (split; [lia|]); (split; [lia|]); (split; [lia|]);
+       apply set_field_range; try assumption; try reflexivity; lia |]);
+    (destruct (fields - idx <=? divide_up (count - initial) 64) eqn:E2; [inversion H; reflexivity|]);
+    rewrite divide_up_64 in E2 by lia;
+    (destruct (scan_ahead (N.to_nat fields) bm (idx + 1) initial count) as [[final fmask]|] eqn:Es; [|inversion H; reflexivity]);
+    pose proof (clz_le64 (getf bm idx)) as Hcl; fold initial in Hcl;
+    apply (scan_ahead_spec _ _ idx initial) in Es; try lia;
+    destruct Es as (F1 & F2 & F3 & F4 & F5); subst fmask;
+    set (mb := count - (initial + 64 * (final - idx - 1))) in *;
+    (destruct (claim_range bm idx final (mask_ initial (64 - initial)) (mask_ mb 0)) as [ok bm1] eqn:Ec);
+    apply (claim_range_spec _ _ _ initial mb) in Ec; try assumption; try lia.
+  (* tries = 0 *)
+  - destruct ok.
+    + assert (Hr : r = Some (index_create idx (64 - initial))) by congruence.
+      assert (Hb : bm' = bm1) by congruence. subst r bm'. unfold index_create.
+      replace (initial + 64 * (final - idx - 1) + mb) with count in Ec by lia.
+      replace (idx * 64 + (64 - initial)) with (64 * idx + (64 - initial)) by lia.
+      split; [lia|]. split; [lia|]. split; [lia|]. exact Ec.
+    + subst bm1. destruct (retries <=? 2); inversion H; reflexivity.
+  - destruct ok.
+    + assert (Hr : r = Some (index_create idx (64 - initial))) by congruence.
+      assert (Hb : bm' = bm1) by congruence. subst r bm'. unfold index_create.
+      replace (initial + 64 * (final - idx - 1) + mb) with count in Ec by lia.
+      replace (idx * 64 + (64 - initial)) with (64 * idx + (64 - initial)) by lia.
+      split; [lia|]. split; [lia|]. split; [lia|]. exact Ec.
+    + subst bm1. destruct (retries <=? 2); [apply IH in H; exact H|inversion H; reflexivity].
+Qed.
+
+(* ---- _mi_bitmap_try_find_from_claim_across: the specification of a call ---- *)
+
+(* exactly the `count` bits from x, all clear before, are set; nothing else changes; inside the bitmap *)
+Definition claim_post (bm bm' : list N) (fields x count : N) : Prop :=
+  x + count <= 64 * fields /\ length bm' = length bm /\ bm_ok bm' /\
+  forall p, p < 64 * fields ->
+    bm_bit bm' p = bm_bit bm p || in_rng (x, x + count) p /\
+    (in_rng (x, x + count) p = true -> bm_bit bm p = false).
+
+Lemma set_range_post bm bm' fields x count :
+  nfields bm = fields -> x + count <= 64 * fields -> set_range bm bm' x count -> claim_post bm bm' fields x count.
+Proof.
+  intros Hnf Hx (L & O & B). repeat split; try assumption.
+  - destruct (flat_split p) as [E Hb]. rewrite E at 1 2. rewrite !bm_bit_ib by exact Hb.
+    rewrite (proj1 (B (p / 64) (p mod 64) ltac:(lia) Hb)). rewrite <- E. reflexivity.
+  - intros Hin. destruct (flat_split p) as [E Hb]. rewrite E at 1. rewrite bm_bit_ib by exact Hb.
+    apply (proj2 (B (p / 64) (p mod 64) ltac:(lia) Hb)). rewrite <- E. exact Hin.
+Qed.
+
+Lemma small_field_F bm fields count i b' :
+  1 <= count -> count <= 64 -> i < fields -> try_find_claim_field bm i count = (None, b') -> b' = bm.
+Proof. intros H1 H2 _ H. apply (field_none_same _ _ _ _ H1 H2 H). Qed.
+Lemma across_field_F bm fields count i b' :
+  bm_ok bm -> nfields bm = fields -> 1 <= count -> count + 64 < W64 -> i < fields ->
+  try_find_claim_field_across ACROSS_TRIES bm fields i count 0 = (None, b') -> b' = bm.
+Proof. intros Hok Hnf H1 HW Hi H. apply (across_field_spec _ _ _ _ _ _ _ _ Hok Hnf Hi H1 HW H). Qed.
+
+Theorem claim_across_success bm fields start count x bm' :
+  bm_ok bm -> nfields bm = fields -> 1 <= count -> count + 64 < W64 ->
+  try_find_from_claim_across bm fields start count = (Some x, bm') ->
+  claim_post bm bm' fields x count.
+Proof.
+  intros Hok Hnf H1 HW H. unfold try_find_from_claim_across in H.
+  destruct (N.eq_dec fields 0) as [->|Hf0].
+  { destruct (count <=? 2); cbn in H; discriminate. }
+  destruct (count <=? 2) eqn:E2.
+  - unfold try_find_from_claim in H. rewrite find_from_loop_gloop in H.
+    apply gloop_some in H; [|lia|intros i b' Hi; apply small_field_F with (fields := fields); lia].
+    destruct H as (i & Hi & H). apply try_find_claim_field_spec in H; try lia.
+    destruct H as (bit & -> & Hb & Hz & ->).
+    apply set_range_post; [exact Hnf|lia|]. apply set_field_range; try assumption; try reflexivity; lia.
+  - rewrite find_from_across_loop_gloop in H.
+    apply gloop_some in H; [|lia|intros i b' Hi; apply across_field_F; assumption].
+    destruct H as (i & Hi & H). apply across_field_spec in H; try assumption.
+    destruct H as (A1 & A2 & A3 & A4). apply set_range_post; assumption.
+Qed.
+
+Theorem claim_across_failure bm fields start count bm' :
+  bm_ok bm -> nfields bm = fields -> 1 <= count -> count + 64 < W64 ->
+  try_find_from_claim_across bm fields start count = (None, bm') -> bm' = bm.
+Proof.
+  intros Hok Hnf H1 HW H. unfold try_find_from_claim_across in H.
+  destruct (N.eq_dec fields 0) as [->|Hf0].
+  { destruct (count <=? 2); cbn in H; inversion H; reflexivity. }
+  destruct (count <=? 2) eqn:E2.
+  - unfold try_find_from_claim in H. rewrite find_from_loop_gloop in H.
+    apply gloop_none_all in H; [|lia|intros i b' Hi; apply small_field_F with (fields := fields); lia]. apply H.
+  - rewrite find_from_across_loop_gloop in H.
+    apply gloop_none_all in H; [|lia|intros i b' Hi; apply across_field_F; assumption]. apply H.
+Qed.
+
+(* ---- _mi_bitmap_unclaim_across ---- *)
+
+Lemma wnot_FULL : wnot FULL = 0.
+Proof. reflexivity. Qed.
+
+Lemma unclaim_mid_spec n bm j a a' bm' :
+  bm_ok bm -> j + N.of_nat n <= nfields bm -> unclaim_mid n bm j FULL a = (a', bm') ->
+  length bm' = length bm /\ bm_ok bm' /\
+  (forall i, getf bm' i = if (j <=? i) && (i <? j + N.of_nat n) then 0 else getf bm i) /\
+  ((forall i, j <= i -> i < j + N.of_nat n -> getf bm i = FULL) -> a' = a).
+Proof.
+  revert bm j a. induction n as [|n IH]; intros bm j a Hok Hn H; cbn [unclaim_mid] in H.
+  - inversion H; subst. repeat split; try assumption. intros i. destruct ((j <=? i) && (i <? j + N.of_nat 0)) eqn:E; [lia|reflexivity].
+  - rewrite wnot_FULL, N.land_0_r in H.
+    apply IH in H; [|apply setf_ok; [exact Hok|reflexivity]|rewrite nfields_setf; lia].
+    destruct H as (L & O & G & A). rewrite length_setf in L. repeat split; try assumption.
+    + intros i. rewrite G. destruct (N.eq_dec i j) as [->|Hne].
+      * rewrite getf_setf_same by lia.
+        destruct ((j + 1 <=? j) && (j <? j + 1 + N.of_nat n)) eqn:E1, ((j <=? j) && (j <? j + N.of_nat (S n))) eqn:E2; try reflexivity; lia.
+      * rewrite getf_setf_other by lia.
+        destruct ((j + 1 <=? i) && (i <? j + 1 + N.of_nat n)) eqn:E1, ((j <=? i) && (i <? j + N.of_nat (S n))) eqn:E2; try reflexivity; lia.
+    + intros Hfull. rewrite A.
+      * rewrite (Hfull j) by lia. change (N.land FULL FULL) with FULL. rewrite N.eqb_refl, andb_true_r. reflexivity.
+      * intros i I1 I2. rewrite getf_setf_other by lia. apply Hfull; lia.
+Qed.
+
+Theorem unclaim_across_spec bm fields count x a bm' :
+  bm_ok bm -> nfields bm = fields -> 1 <= count -> x + count <= 64 * fields ->
+  unclaim_across bm fields count x = (a, bm') ->
+  length bm' = length bm /\ bm_ok bm' /\
+  (forall i b, i < fields -> b < 64 ->
+     N.testbit (getf bm' i) b = N.testbit (getf bm i) b && negb (in_rng (x, x + count) (64 * i + b))) /\
+  ((forall i b, i < fields -> b < 64 -> in_rng (x, x + count) (64 * i + b) = true -> N.testbit (getf bm i) b = true) -> a = true).
+Proof.
+  intros Hok Hnf H1 Hx H. unfold unclaim_across, mask_across, index_field, index_bit_in_field in H.
+  set (idx := x / 64) in *. set (bit := x mod 64) in *.
+  assert (Hxe : x = 64 * idx + bit) by (subst idx bit; lia).
+  assert (Hbit : bit < 64) by (subst bit; lia).
+  destruct (bit + count <=? 64) eqn:Ec.
+  - (* inside one field *)
+    cbn [unclaim_mid N.to_nat] in H. cbn [N.eqb negb] in H. inversion H; subst a bm'. clear H.
+    assert (Hidx : idx < fields) by lia.
+    split; [apply length_setf|]. split; [apply setf_ok; [exact Hok|apply land_lt, getf_lt, Hok]|]. split.
+    + intros i b Hi Hb. rewrite getf_setf by lia. unfold in_rng. cbn [fst snd]. destruct (i =? idx) eqn:E.
+      * assert (i = idx) by lia. subst i. rewrite N.land_spec, wnot_testbit by apply mask_lt. rewrite mask_testbit by lia. lia.
+      * lia.
+    + intros Hall. apply N.eqb_eq. apply land_eq_of_bits. intros b Hm. rewrite mask_testbit in Hm by lia.
+      apply Hall; try lia. unfold in_rng. cbn [fst snd]. lia.
+  - set (c' := count - (64 - bit)) in *. set (midc := c' / 64) in *. set (pc := c' mod 64) in *.
+    assert (Hc' : c' = 64 * midc + pc) by (subst midc pc; lia).
+    assert (Hpc : pc < 64) by (subst pc; lia).
+    set (v := getf bm idx) in *.
+    set (bm1 := setf bm idx (N.land v (wnot (mask_ (64 - bit) bit)))) in *.
+    assert (Hidx : idx + 1 + midc + (if pc =? 0 then 0 else 1) <= fields) by (destruct (pc =? 0) eqn:E; lia).
+    assert (Hok1 : bm_ok bm1) by (apply setf_ok; [exact Hok|apply land_lt, getf_lt, Hok]).
+    destruct (unclaim_mid (N.to_nat midc) bm1 (idx + 1) FULL (N.land v (mask_ (64 - bit) bit) =? mask_ (64 - bit) bit)) as [a2 bm2] eqn:Em.
+    apply unclaim_mid_spec in Em; [|exact Hok1|subst bm1; rewrite nfields_setf; lia].
+    destruct Em as (L2 & O2 & G2 & A2). subst bm1. rewrite length_setf in L2. rewrite N2Nat.id in *.
+    assert (G1 : forall i, getf (setf bm idx (N.land v (wnot (mask_ (64 - bit) bit)))) i
+                           = if i =? idx then N.land v (wnot (mask_ (64 - bit) bit)) else getf bm i)
+      by (intros i; apply getf_setf; lia).
+    assert (Hpre : forall b, b < 64 -> N.testbit (N.land v (wnot (mask_ (64 - bit) bit))) b = N.testbit v b && negb (bit <=? b)).
+    { intros b Hb. rewrite N.land_spec, wnot_testbit by apply mask_lt. rewrite mask_testbit by lia. lia. }
+    assert (A1 : (forall i b, i < fields -> b < 64 -> in_rng (x, x + count) (64 * i + b) = true -> N.testbit (getf bm i) b = true) ->
+                 (N.land v (mask_ (64 - bit) bit) =? mask_ (64 - bit) bit) = true).
+    { intros Hall. apply N.eqb_eq. apply land_eq_of_bits. intros b Hm. rewrite mask_testbit in Hm by lia.
+      apply Hall; try lia. unfold in_rng. cbn [fst snd]. lia. }
+    assert (A2' : (forall i b, i < fields -> b < 64 -> in_rng (x, x + count) (64 * i + b) = true -> N.testbit (getf bm i) b = true) ->
+                  a2 = true).
+    { intros Hall. rewrite A2; [apply A1, Hall|]. intros i I1 I2. rewrite G1. assert (E : (i =? idx) = false) by lia. rewrite E.
+      apply eq_of_bits64; [apply getf_lt, Hok|apply FULL_lt|]. intros b Hb. rewrite FULL_testbit.
+      rewrite Hall; try lia. unfold in_rng. cbn [fst snd]. lia. }
+    destruct (pc =? 0) eqn:Ep.
+    + cbn [N.eqb negb] in H. inversion H; subst a bm'. clear H.
+      split; [exact L2|]. split; [exact O2|]. split; [|exact A2'].
+      intros i b Hi Hb. rewrite G2, G1. unfold in_rng. cbn [fst snd].
+      destruct ((idx + 1 <=? i) && (i <? idx + 1 + midc)) eqn:E1.
+      * rewrite N.bits_0. lia.
+      * destruct (i =? idx) eqn:E2; [assert (i = idx) by lia; subst i; rewrite Hpre by exact Hb; fold v; lia|lia].
+    + assert (Hnz : mask_ pc 0 <> 0) by (apply mask_nonzero; lia).
+      assert (En : negb (mask_ pc 0 =? 0) = true) by lia. rewrite En in H.
+      inversion H; subst a bm'. clear H.
+      assert (Hnf2 : nfields bm2 = fields) by (unfold nfields in *; rewrite L2; exact Hnf).
+      assert (Hv3 : getf bm2 (idx + 1 + midc) = getf bm (idx + 1 + midc)).
+      { rewrite G2, G1. assert (E1 : (idx + 1 <=? idx + 1 + midc) && (idx + 1 + midc <? idx + 1 + midc) = false) by lia.
+        assert (E2 : (idx + 1 + midc =? idx) = false) by lia. rewrite E1, E2. reflexivity. }
+      remember (idx + 1 + midc) as j eqn:Ej.
+      split; [rewrite length_setf; exact L2|]. split; [apply setf_ok; [exact O2|apply land_lt, getf_lt, O2]|]. split.
+      * intros i b Hi Hb. rewrite getf_setf by lia. unfold in_rng. cbn [fst snd]. destruct (i =? j) eqn:E0.
+        -- assert (i = j) by lia. subst i. rewrite N.land_spec, wnot_testbit by apply mask_lt. rewrite mask_testbit by lia.
+           rewrite Hv3. lia.
+        -- rewrite G2, G1. destruct ((idx + 1 <=? i) && (i <? idx + 1 + midc)) eqn:E1.
+           ++ rewrite N.bits_0. lia.
+           ++ destruct (i =? idx) eqn:E2; [assert (i = idx) by lia; subst i; rewrite Hpre by exact Hb; fold v; lia|lia].
+      * intros Hall. rewrite (A2' Hall). cbn [andb]. apply N.eqb_eq. apply land_eq_of_bits. intros b Hm.
+        rewrite mask_testbit in Hm by lia. rewrite Hv3. apply Hall; try lia. unfold in_rng. cbn [fst snd]. lia.
+Qed.
+
+(* free_all_restores: releasing a successful claim gives back exactly the previous bitmap *)
+Theorem free_all_restores bm fields start count x bm' :
+  bm_ok bm -> nfields bm = fields -> 1 <= count -> count + 64 < W64 ->
+  try_find_from_claim_across bm fields start count = (Some x, bm') ->
+  unclaim_across bm' fields count x = (true, bm).
+Proof.
+  intros Hok Hnf H1 HW H. apply claim_across_success in H; try assumption.
+  destruct H as (Hx & L & O & B).
+  assert (Hnf' : nfields bm' = fields) by (unfold nfields in *; rewrite L; exact Hnf).
+  destruct (unclaim_across bm' fields count x) as [a bm2] eqn:Eu.
+  apply unclaim_across_spec in Eu; try assumption. destruct Eu as (L2 & O2 & B2 & A2).
+  assert (Hbits : forall i b, i < fields -> b < 64 ->
+            N.testbit (getf bm' i) b = N.testbit (getf bm i) b || in_rng (x, x + count) (64 * i + b) /\
+            (in_rng (x, x + count) (64 * i + b) = true -> N.testbit (getf bm i) b = false)).
+  { intros i b Hi Hb. specialize (B (64 * i + b) ltac:(lia)). rewrite !bm_bit_ib in B by exact Hb. exact B. }
+  f_equal.
+  - apply A2. intros i b Hi Hb Hin. rewrite (proj1 (Hbits i b Hi Hb)), Hin. apply orb_true_r.
+  - apply bm_ext; [congruence|]. intros i Hi.
+    assert (Hi' : i < fields) by (unfold nfields in *; rewrite L2, L in Hi; rewrite <- Hnf; exact Hi).
+    apply eq_of_bits64; [apply getf_lt, O2|apply getf_lt, Hok|]. intros b Hb.
+    rewrite B2 by assumption. destruct (Hbits i b Hi' Hb) as [E1 E2]. rewrite E1.
+    destruct (in_rng (x, x + count) (64 * i + b)) eqn:Ein.
+    + rewrite (E2 eq_refl). reflexivity.
+    + rewrite orb_false_r, andb_true_r. reflexivity.
+Qed.
